@@ -86,10 +86,23 @@ class Episode:
         return None
 
 
+def seed_reset(env, td_instance):
+    """Resets that draw from the global torch RNG (MDCPDPEnv(start_mode="random"): the start depot) are made a
+    deterministic function of the instance handed to reset: the RNG is seeded from the instance's coordinates, so an
+    episode replays from its case alone whoever calls the driver (C04 calls it directly for its solo re-runs).  A batch
+    and a one-row slice of it still get different draws (one randint call per reset, of the batch's size): on the
+    pinned tree the draw only shows in td0["current_depot"], which no differential check compares."""
+    if getattr(env, "start_mode", None) == "random" and "locs" in td_instance.keys():
+        x = td_instance["locs"].double()
+        torch.manual_seed(int((x * torch.arange(1, x.numel() + 1, dtype=torch.float64).reshape(x.shape)).sum().item() * 4096) % (2 ** 31 - 1))
+
+
 def run_episode(env, td_instance, modes, streams, cap, keep_states=False, reset=True):
     """Reset a clone of td_instance (reset writes into its argument) and drive the batch until
     done.all() or `cap` steps.  Never pads beyond the step at which the slowest row finishes."""
     ep = Episode()
+    if reset:
+        seed_reset(env, td_instance)
     td = env.reset(td_instance.clone()) if reset else td_instance.clone()
     B = td.batch_size[0]
     ep.td0 = td.clone()
@@ -129,6 +142,7 @@ def run_episode_torchrl(env, td_instance, modes, streams, cap, keep_states=False
     action (the row's highest feasible index, or its lowest if that is the committed one) is evaluated from the same
     td first and its result discarded; the committed episode still consists of mask-admitted actions only."""
     ep = Episode()
+    seed_reset(env, td_instance)
     td = env.reset(td_instance.clone())
     B = td.batch_size[0]
     ep.td0 = td.clone()
